@@ -52,7 +52,8 @@ WALKS = {
     "quick": {
         "C02": [["--runs", 300, "--steps", 45, "--origins", 2, "--maxreq", 6]],
         "C03": [["--runs", 350, "--steps", 40, "--origins", 1, "--maxreq", 5, "--h2prob", "0.7", "--cancelw", 3],
-                ["--runs", 100, "--steps", 40, "--origins", 2, "--maxreq", 6, "--h2prob", "0.6", "--droppool", "--nopool"]],
+                ["--runs", 100, "--steps", 40, "--origins", 2, "--maxreq", 6, "--h2prob", "0.6", "--droppool", "--nopool"],
+                ["--runs", 50, "--steps", 40, "--origins", 1, "--maxreq", 5, "--h2prob", "0.7", "--cancelw", 3, "--contend"]],
         "C04": [["--runs", 350, "--steps", 40, "--origins", 1, "--maxreq", 6, "--h2prob", "0.6"],
                 ["--runs", 15, "--steps", 45, "--origins", 1, "--maxreq", 7, "--h2prob", "0.15", "--tick", "--cancelw", 1],
                 ["--runs", 25, "--steps", 8, "--origins", 1, "--maxreq", 12, "--h2prob", "0.0", "--tick", "--aging", "--cancelw", 0]],
@@ -70,7 +71,7 @@ def _scale(args, k):
 
 
 def _thorough(a):
-    if "--tick" in a:
+    if "--tick" in a or "--contend" in a:
         return [_scale(a, 6)]
     if int(a[a.index("--origins") + 1]) > 2:
         # many-origin records are large (one observation row per origin): five campaigns of 5x instead of one of 25x,
@@ -278,8 +279,12 @@ def run(pid, tier, seed, t0, asbuilt=None):
     # the same behaviours again with the harsh drain (connections die instead of coming back to the pool)
     gtrace2 = os.path.join(d, "goals-trace-harsh.ndjson")
     grep2 = json.loads(vlib.run_harness("pool", ["replay", "--harsh-drain", "--in", gsched, "--out", gtrace2, "--uris", "http://a.test"]))
-    grep_["steps"] += grep2["steps"]
-    grep_["drifted"] += grep2["drifted"]
+    # and once more under lock contention: during every step another thread holds the pool lock for a moment (hook
+    # PoolLock), so work that is only done when the lock can be taken at once (try_lock) is visibly skipped
+    gtrace3 = os.path.join(d, "goals-trace-contended.ndjson")
+    grep3 = json.loads(vlib.run_harness("pool", ["replay", "--contend", "--in", gsched, "--out", gtrace3, "--uris", "http://a.test"]))
+    grep_["steps"] += grep2["steps"] + grep3["steps"]
+    grep_["drifted"] += grep2["drifted"] + grep3["drifted"]
 
     # ---- 4. random walks on the real pool
     wtraces = []
@@ -298,7 +303,7 @@ def run(pid, tier, seed, t0, asbuilt=None):
     all_viol = []
     nrec = 0
     samples = []
-    for path in [rtrace, gtrace, gtrace2] + [w for w, _ in wtraces]:
+    for path in [rtrace, gtrace, gtrace2, gtrace3] + [w for w, _ in wtraces]:
         viol, r = monitor(pid, path)
         trace = vlib.read_ndjson(path)
         nrec += len(trace)
